@@ -451,6 +451,7 @@ class State:
     self.univ = []           # (dict symbol, key placeholder, kind, expr): holds for every key of that dict version
     self.events = []
     self.broke = False
+    self.cont = False         # `continue` met: the rest of this iteration's body is skipped
 
   def clone(self):
     memo = {}
@@ -459,6 +460,7 @@ class State:
     st.univ = list(self.univ)
     st.events = list(self.events)
     st.broke = self.broke
+    st.cont = self.cont
 
     def cp(v):
       if isinstance(v, DictObj):
@@ -535,7 +537,7 @@ class Interp:
     for s in stmts:
       nxt = []
       for p, rv in paths:
-        if rv is not NotImplemented or p.broke:
+        if rv is not NotImplemented or p.broke or p.cont:
           nxt.append((p, rv))
           continue
         nxt.extend(self.stmt(s, p))
@@ -613,7 +615,8 @@ class Interp:
       st.broke = True
       return [(st, NotImplemented)]
     if isinstance(s, ast.Continue):
-      raise AnalysisError('continue is not modelled')
+      st.cont = True
+      return [(st, NotImplemented)]
     if isinstance(s, ast.For):
       return self.for_(s, st)
     if isinstance(s, ast.While):
@@ -653,6 +656,7 @@ class Interp:
     for p, rv in body_paths:
       if rv is not NotImplemented:
         raise AnalysisError('return inside a loop is not modelled')
+      p.cont = False            # a continued iteration ends like any other
     st.events.append(('loop', s, head, body_paths, it, n0, pre))
     # universal facts: a loop over a dict's keys whose body only asserts facts about that key's cell
     itd = it.d if isinstance(it, _View) and it.kind in ('keys', 'items') else it
@@ -708,6 +712,7 @@ class Interp:
     for p, rv in body_paths:
       if rv is not NotImplemented:
         raise AnalysisError('return inside a loop is not modelled')
+      p.cont = False
     st.events.append(('loop', s, head, body_paths, None, n0, pre))
     self._havoc_names(st, assigned, s, 'x')
     for d in st.dicts():
